@@ -122,6 +122,7 @@ type LinResult struct {
 	Ops        int
 	Evicts     int
 	Installs   int
+	WaiterBounded int // installs whose end is bounded by the return of a waiter that received the value
 	Witness    string // first illegal key's operations
 	CallbackViolation string
 }
@@ -148,6 +149,19 @@ func (t *Trial) CheckLinearizable(finals map[int]linOut, timeout time.Duration) 
 		}
 		iv, ok := loadsByVal[r.RV]
 		return ok && iv.from <= r.Ret && r.Call <= iv.to
+	}
+	// A waiter is released only after the load's outcome was applied to the table: when a waiter returned
+	// the loaded value, the installation (if it happened at all) is over by then.
+	firstWaiterRet := map[int]int64{}
+	for _, rs := range t.Recs {
+		for i := range rs {
+			r := &rs[i]
+			if isWaiter(r) {
+				if cur, ok := firstWaiterRet[r.RV]; !ok || r.Ret < cur {
+					firstWaiterRet[r.RV] = r.Ret
+				}
+			}
+		}
 	}
 	// values observed as cached anywhere (to resolve whether a loaded value was installed)
 	observed := map[int]bool{}
@@ -198,7 +212,12 @@ func (t *Trial) CheckLinearizable(finals map[int]linOut, timeout time.Duration) 
 					add(r.Key, porcupine.Operation{ClientId: w, Input: linIn{Kind: kReadMiss, Key: r.Key}, Call: r.Call, Output: linOut{}, Return: r.LEnter})
 					if !r.LNF && observed[r.LVal] {
 						res.Installs++
-						add(r.Key, porcupine.Operation{ClientId: w, Input: linIn{Kind: KInstall, Key: r.Key, Arg: r.LVal}, Call: r.LExit, Output: linOut{}, Return: r.Ret})
+						until := r.Ret
+						if wr, ok := firstWaiterRet[r.LVal]; ok && wr < until && wr > r.LExit {
+							until = wr
+							res.WaiterBounded++
+						}
+						add(r.Key, porcupine.Operation{ClientId: w, Input: linIn{Kind: KInstall, Key: r.Key, Arg: r.LVal}, Call: r.LExit, Output: linOut{}, Return: until})
 					}
 					continue
 				}
